@@ -55,9 +55,11 @@ def compareBody (b : Backend) : Sess :=
   op "GetErrUnmanaged" ;;
   .scope "loop" (.when .unmanaged (.warn ["%v", "_"])) ;;
   .call "showCompareInfo" [] showCompareInfoBody ;;
-  op "HasChanges" ;;
-  .ite .hasChanges "$r.logFname != \"\" && $r.HasChanges()"
-    (op "getLogFH" [".cmp"] ;; .ite .never "err != nil" (.ret .keep ["err"]) .skip) .skip ;;
+  -- `if s.logFname != "" && s.HasChanges()`: a conjunction is the nested test (a log directory is always given)
+  .ite (.not .never) "$r.logFname != \"\""
+    (op "HasChanges" ;;
+     .ite .hasChanges "$r.HasChanges()"
+       (op "getLogFH" [".cmp"] ;; .ite .never "err != nil" (.ret .keep ["err"]) .skip) .skip) .skip ;;
   .ret .nil ["nil"]
 
 def approveOrCompareBody (b : Backend) : Sess :=
